@@ -138,6 +138,9 @@ class PointEval:
             return np.nan
         if isinstance(e, p.Call):
             name = e.function.name
+            if name == "pytato.zero":
+                # (zeros_like: the value of the argument is irrelevant)
+                return 0
             m = re.fullmatch(r"pytato\.c99\.(\w+)", name)
             if not m or m.group(1) not in _C99:
                 raise NotImplementedError(f"call {name}")
